@@ -11,6 +11,7 @@
 #include <signal.h>
 #include <unistd.h>
 #include <errno.h>
+#include <fcntl.h>
 #include <sys/wait.h>
 #include <sys/time.h>
 #include "nanolang.h"
